@@ -40,8 +40,11 @@ EXTENDS Integers, Sequences, FiniteSets, TLC, SequencesExt
 CONSTANTS Threads, MaxLoads, Dev,
           FlagSets,     \* the flag words tried: subsets of {"TSYNC","LOG","BAD"}
           Pols,         \* subset of {"valid","invalid","oversize"}
-          EnvAnywhere   \* TRUE: environment steps at every pc; FALSE: only
+          EnvAnywhere,  \* TRUE: environment steps at every pc; FALSE: only
                         \* where a replay can stage them (idle, schedule point)
+          Creators,     \* threads that may create threads (the replay harness
+                        \* can only stage creation by unmanaged runtime threads)
+          Callers       \* threads library calls are made on
 
 VARIABLES threads, chain, nnp, strict, priv, pc, kind, m, locked, req, res, fid, loads, kret, synced
 vars == <<threads, chain, nnp, strict, priv, pc, kind, m, locked, req, res, fid, loads, kret, synced>>
@@ -51,7 +54,7 @@ NoReq == [nnp |-> FALSE, flags |-> {}, pol |-> "valid"]
 NoKret == [errno |-> "", ret |-> 0, att |-> FALSE, nnpAt |-> FALSE, flags |-> {}, t |-> "none"]
 
 Init ==
-  /\ threads \in {{t} : t \in Threads}
+  /\ threads \in {{t} : t \in Creators}
   /\ chain = [t \in Threads |-> <<>>]
   /\ nnp = [t \in Threads |-> FALSE]
   /\ strict = [t \in Threads |-> FALSE]
@@ -67,7 +70,7 @@ EnvOK == EnvAnywhere \/ pc \in {"idle", "sched"}
 \* of the creating thread (copy_seccomp under siglock, which also
 \* serialises it with a thread-sync in progress).
 ThreadCreate(p, n) ==
-  /\ EnvOK /\ p \in threads /\ n \in Threads \ threads
+  /\ EnvOK /\ p \in threads \cap Creators /\ n \in Threads \ threads
   /\ threads' = threads \cup {n}
   /\ chain' = [chain EXCEPT ![n] = chain[p]]
   /\ nnp' = [nnp EXCEPT ![n] = nnp[p]]
@@ -111,7 +114,7 @@ KStrict(t, flagword) ==
 ---------------------------------------------------------------------------
 (* Library                                                                 *)
 Call(t, k, r) ==
-  /\ pc = "idle" /\ loads < MaxLoads /\ t \in threads
+  /\ pc = "idle" /\ loads < MaxLoads /\ t \in threads \cap Callers
   /\ m' = t /\ kind' = k /\ req' = r
   /\ pc' = CASE k = "load" -> "assemble" [] k = "supported" -> "seccomp" [] k = "setnnp" -> "prctl"
   /\ fid' = loads + 1 /\ res' = "none" /\ kret' = NoKret /\ locked' = FALSE
